@@ -5,9 +5,11 @@ import CharsetProof.Props.C02
 import CharsetProof.Props.C02b
 import CharsetProof.Props.C02c
 import CharsetProof.Props.Full
+import CharsetProof.Props.Full2
 open Charset
 #print axioms C02_full
 #print axioms detection_full
+#print axioms detection_full_companions
 #print axioms worldFull_totalOn
 #print axioms decodeNow_total_supported
 #print axioms targetsCoverSupported
